@@ -91,8 +91,27 @@ func allProps() []PropSpec {
 			ID: "C18",
 			Harnesses: []HarnessSpec{
 				{Func: "ZZ_C18_H1", Pkg: "pkg/protocol/http1", Covers: []string{"reached-assert", "stopped-during-first"}},
+				{Func: "ZZ_C18_H2", Pkg: "pkg/route", Covers: []string{"reached-assert", "not-running", "running"}, GoPolicy: map[string]string{
+					"(*github.com/cloudwego/hertz/pkg/route.Engine).Shutdown$1":               "inline",
+					"(*github.com/cloudwego/hertz/pkg/route.Engine).executeOnShutdownHooks$1": "inline",
+				}, Note: "the two goroutines of Shutdown (hook fan-out) are run to completion at their go statement: one fixed schedule"},
 			},
 			Assumptions: []string{"only the sequential clauses of C18 are decided: the per-request exit check of the keep-alive loop (and the Shutdown status machine when ZZ_C18_H2 is listed); hooks, listener close, wait bound, and all timing/interleaving clauses are outside this technique"},
+		},
+		{
+			ID: "C06",
+			Harnesses: []HarnessSpec{
+				{Func: "ZZ_C06_H1", Pkg: "pkg/route", Quick: map[string]int{"N": 6}, Thorough: map[string]int{"N": 9}, Covers: []string{"reached-assert", "matched-with-param", "no-match"}},
+			},
+			Assumptions: []string{"route sets: the 12-set catalogue in harness/pkg/route/c06.go, each in every registration order; request paths: '/' + every byte string up to N bytes", "lookup is the real router.find (raw-path unescaping, case-insensitive/trailing-slash redirects are outside)", "reference matcher implements the documented priority rule (DESIGN.md Appendix C)"},
+		},
+		{
+			ID: "C12",
+			Harnesses: []HarnessSpec{
+				{Func: "ZZ_C12_H1", Pkg: "pkg/route", Quick: map[string]int{"N": 5}, Thorough: map[string]int{"N": 7}, Covers: []string{"reached-assert", "some-abort"}},
+				{Func: "ZZ_C12_H2", Pkg: "pkg/route", Covers: []string{"reached-assert", "matched"}},
+			},
+			Assumptions: []string{"chains up to N handlers over the seven behaviours of the property; group nesting depth <= 2 below the engine; Engine built without a transport and ServeHTTP called directly"},
 		},
 	}
 }
